@@ -169,6 +169,15 @@ def run(chk):
                 if w[0] != "ok":
                     badvars.append(w)
         chk.cov["inventory_classes"] = dict(classes)
+        # every memoised sampler of the inventory must have a neighbouring-keys design (equal / 1 ulp / far) in the harness
+        memo_fns = sorted({t["function"] for t in table if t["function"] and t["tls"] and not t["const"]
+                           and t["file"] == "src/cmb_random.c"})
+        chk.cov["memoised_samplers"] = memo_fns
+        unexercised = [f for f in memo_fns if f not in expcorr.MEMO_FUNCTIONS_EXERCISED]
+        if unexercised and not leaks:
+            report(chk, "function-static cache(s) in %s: harness/expdrv.c (ulp_block) has no equal / 1-ulp / far-apart parameter "
+                   "design for them" % ", ".join(unexercised), "memoised samplers without a differential design: %s\n"
+                   "theorems: CimbaModel.Props.C19.isolation (class PureMemo is argued, not proved)" % ", ".join(unexercised), False)
     flips_ok = tgen_ok and not leaks and not any(t["name"] in ("bits", "bitpos") and t["function"] == "cmb_random_flip" for t in table)
     # ---- corpus ----------------------------------------------------------
     stats = []
@@ -241,10 +250,10 @@ def run(chk):
                 "observed: bytes logged by trials that do not set their flags differ between runs (%d distinct vectors); "
                 "digests identical" % len(aux)) if len(aux) > 1 else "not observed in this run"
     # ---- generated scenarios ---------------------------------------------
-    total = 1500 if quick else 12000
+    total = 1200 if quick else 12000
     groups = [[sc] for sc in expcorr.generate(chk.seed, total, flips_ok)]
     groups += [[sc] for sc in expcorr.stress(chk.seed, 40 if quick else 400)]
-    groups += expcorr.generate_groups(chk.seed, 150 if quick else 1500, flips_ok)
+    groups += expcorr.generate_groups(chk.seed, 120 if quick else 1500, flips_ok)
     groups += expcorr.stress_groups(chk.seed, 10 if quick else 100)
 
     def work(grp):
